@@ -16,21 +16,40 @@
    `cden_step` that one machine step either finds no answer - the denotation is empty - or
    finds the next answer and leaves a node denoting the rest.  "Bindings of an abandoned
    alternative never appear later" is part of it: the answers are the reference's, which has
-   no shared mutable state at all.  The only hypothesis is that the reference search finishes
-   (it refuses cut directly inside not(..) / time(..), which the documentation does not cover).
+   no shared mutable state at all.  The hypothesis that the reference search finishes is itself a
+   theorem whenever the engine finishes (C01_engine_finishes_then_reference_does), except for programs
+   with a cut directly inside not(..) / time(..), which the reference refuses (the documentation
+   does not cover them).
 
    C01_refines_cut_free is the earlier theorem against Spec/SpecLazy.v.  The eager trace
    semantics Spec/SpecSolve.v (answers up to renaming; `refines_reference`) remains as a second,
    independently written oracle of the check; no theorem relates it to the other two. *)
 From Coq Require Import String.
 From Suiron Require Import Model.Term Model.Subst Model.Show Model.Rename Model.Solve Spec.SpecSolve
-  Spec.SpecLazy Spec.SpecCut Spec.Refine Proofs.SolveDead Proofs.SolveCut Proofs.SolveMisc Proofs.RefinePlain Proofs.RefineDen Proofs.RefineCut Proofs.SolveTimeout Proofs.SolveQuiet.
+  Spec.SpecLazy Spec.SpecCut Spec.Refine Proofs.SolveDead Proofs.SolveCut Proofs.SolveMisc Proofs.RefinePlain Proofs.RefineDen Proofs.RefineCut Proofs.SolveTimeout Proofs.SolveQuiet Proofs.NotCutInv Proofs.RefineCutConverse.
 
 Theorem C01_refines : forall kb bf q w fs R nd w1 m F R',
   canswers kb bf fs q w = Ok R ->
   make_base_node kb (GCall q) w = Ok (nd, w1) ->
   ask_all kb bf m F nd w1 = Ok R' -> R' = R.
 Proof. exact refines_cut. Qed.
+
+(* THE CONVERSE (Proofs/RefineCutConverse.v): the hypothesis that the reference search finishes is not
+   needed - it follows from the engine finishing.  For every knowledge base without a cut directly
+   inside not(..)/time(..) (kbokb, decidable; the reference refuses such programs by design and says
+   Panic): whenever asking the query's node until it reports no answer finishes with R', the
+   reference search finishes, for some fuel, with exactly R'. *)
+Theorem C01_engine_finishes_then_reference_does : forall kb bf q w nd w1 m F R',
+  kbokb kb = true ->
+  make_base_node kb (GCall q) w = Ok (nd, w1) -> ask_all kb bf m F nd w1 = Ok R' ->
+  exists fs, canswers kb bf fs q w = Ok R'.
+Proof. intros kb bf q w nd w1 m F R' H. apply refines_cut_converse_ok. now apply kbokb_kbok. Qed.
+
+(* for ANY knowledge base: the reference finishes with the same result, or refuses the program *)
+Theorem C01_converse_any_program : forall kb bf q w nd w1 m F R',
+  make_base_node kb (GCall q) w = Ok (nd, w1) -> ask_all kb bf m F nd w1 = Ok R' ->
+  (exists fs, canswers kb bf fs q w = Ok R') \/ (exists fs, canswers kb bf fs q w = Panic).
+Proof. exact refines_cut_converse. Qed.
 
 (* solve_all reports the same answers, each formatted (`answer_text`: replace_variables, then
    `$Var = value` for the query's variables in argument order - C01_partial_answer_format),
@@ -87,7 +106,7 @@ Theorem C01_step : forall kb bf, plain_kb kb -> forall F nd w nd' r c w1 fs k R,
 Proof. exact den_step. Qed.
 
 Theorem C01_fresh_node : forall kb bf g f fs ss w nd w' k1 k2 R,
-  plain g = true -> make_node kb g ss w = Ok (nd, w') -> (f <= fs)%nat -> kle k1 k2 ->
+  plain g = true -> make_node kb g ss w = Ok (nd, w') -> (f <= fs)%nat -> RefineDen.kle k1 k2 ->
   lsolve kb bf f g ss w k1 = Ok R -> den kb bf fs nd w' k2 = Ok R.
 Proof. exact den_fresh. Qed.
 
@@ -177,6 +196,8 @@ Print Assumptions C01_refines.
 Print Assumptions C01_solve_all_reports_the_reference_answers.
 Print Assumptions C01_solve_reports_the_reference_answers.
 Print Assumptions C01_requests_are_the_reference_answers.
+Print Assumptions C01_engine_finishes_then_reference_does.
+Print Assumptions C01_converse_any_program.
 Print Assumptions C01_step_all.
 Print Assumptions C01_fresh_node_all.
 Print Assumptions C01_refines_cut_free.
